@@ -138,3 +138,58 @@ Definition get_location_names (d : dir) : list string := sl_of_list (dict_keys (
 Definition get_location_lights (d : dir) (g : string) : option (list string) := dict_get g (d_locs d).
 Definition get_successful_discovers (d : dir) : Z := d_ok d.
 Definition get_failed_discovers (d : dir) : Z := d_fail d.
+
+(* ---------- vm/vm_discover.py: how the VM iterates over the directory ----------
+   Register.operand selects lights / groups / locations; disc_forward the direction;
+   the result register receives a name or Operand.NULL.  `x or Operand.NULL` turns
+   None *and the empty string* into NULL.  dnextm calls .next/.prev on whatever
+   get_group_lights / get_location_lights returns, which is None once the group
+   or location has disappeared: AttributeError ([DFault]). *)
+Inductive operand := OLight | OGroup | OLocation.
+Inductive dresult := DName (s : string) | DNull | DFault.
+
+Definition or_null (o : option string) : dresult :=
+  match o with
+  | Some s => if String.eqb s EmptyString then DNull else DName s
+  | None => DNull
+  end.
+
+Definition names_by_oper (d : dir) (op : operand) : list string :=
+  match op with
+  | OLight => get_light_names d
+  | OGroup => get_group_names d
+  | OLocation => get_location_names d
+  end.
+
+Definition set_by_oper (d : dir) (op : operand) (name : string) : option (list string) :=
+  match op with
+  | OGroup => get_group_lights d name
+  | OLocation => get_location_lights d name
+  | OLight => None
+  end.
+
+Definition ends (fwd : bool) (l : list string) : option string :=
+  if fwd then sl_first l else sl_last l.
+Definition steps (fwd : bool) (l : list string) (cur : string) : option string :=
+  if fwd then sl_next l cur else sl_prev l cur.
+
+Definition vm_disc (d : dir) (op : operand) (fwd : bool) : dresult :=
+  match ends fwd (names_by_oper d op) with
+  | Some s => DName s            (* name_list[index], no `or` *)
+  | None => DNull
+  end.
+
+Definition vm_discm (d : dir) (op : operand) (name : string) (fwd : bool) : dresult :=
+  match set_by_oper d op name with
+  | Some l => or_null (ends fwd l)
+  | None => DNull
+  end.
+
+Definition vm_dnext (d : dir) (op : operand) (fwd : bool) (cur : string) : dresult :=
+  or_null (steps fwd (names_by_oper d op) cur).
+
+Definition vm_dnextm (d : dir) (op : operand) (name : string) (fwd : bool) (cur : string) : dresult :=
+  match set_by_oper d op name with
+  | Some l => or_null (steps fwd l cur)
+  | None => DFault
+  end.
